@@ -30,7 +30,7 @@ def _wrap(rec, kind, fn):
 
 # kind -> model action (spec/SamplerFaults.tla); a kind observed without an entry here is a specification gap
 KIND_TO_ACTION = {
-    "make_helper": "MakeHelper", "tempfile": "CreateTmp", "write": "WriteCache", "write_dataset": "WriteCache",
+    "make_helper": "MakeHelper", "tempfile": "CreateTmp", "write": "WriteCache", "write_dataset": "WriteCache", "write_h5file": "WriteCache",
     "mh_open_file": "Count", "mh_h5py": "CheckLnPrior", "contains": "CheckLnPrior",
     "choice": "ChooseOrder", "batch_tasks": "Partition", "map": "Map", "task": "RunTask",
     "read_batch": "RunTask", "utils_open_file": "RunTask", "utils_h5py": "RunTask", "kernel_ll": "RunTask",
@@ -76,6 +76,16 @@ def interpose(rec):
         # ... and INSIDE the cache write: the file exists and is half written when a dataset cannot be created (disk full, a value
         # HDF5 cannot store); what the writer does about its own failure must not hide it from the caller
         patch(h5py.Group, "create_dataset", wrapping("write_dataset"))
+        # (the writer opens the file through the h5py module itself; the proxies above keep the real class, so only that open -
+        # and astropy's own - is counted here.  A subclass, not a function: the writer asks isinstance(output, h5py.File))
+        real_file = h5py.File
+
+        class _CountingFile(real_file):
+            def __init__(self, *a, **k):
+                rec.tick("write_h5file")
+                super().__init__(*a, **k)
+        _CountingFile.__name__ = "File"
+        patch(h5py, "File", _CountingFile)
         patch(mh, "tb", _ModProxy(tb, {"open_file": _wrap(rec, "mh_open_file", tb.open_file)}))
         patch(mh, "h5py", _ModProxy(h5py, {"File": _wrap(rec, "mh_h5py", h5py.File)}))
         patch(mh, "table_contains_column", wrapping("contains"))
